@@ -85,6 +85,17 @@ CLAIMS["C11"] = dict(
     text="The rules of the statement are written as TLA+ tables independent of the Rust call graph; TLC enumerates every sequence of up to 2-3 records over every recognised key x value class (valid, boundary, overflow, NaN/inf, empty, padded, comment-suffixed, extra colon, enum names) plus unknown keys, duplicates, all event kinds and colour shapes, and checks last-valid-wins, the AR-follows-OD rule, clamps, break ordering and that a rejected record is a stutter; the real decoders must produce exactly the predicted struct and verdicts.",
     note="Trusted: TLC, the spelling table and projections in harness/src/records.rs. Floats on a 1/100 lattice; 2^31 / 2^31-1 are not given to f32 fields (not representable).")
 
+CLAIMS["C02"] = dict(
+    category="model_checking", design_ref="DESIGN.md section 4, C02 and section 7",
+    technique="TLA+ codec compositions PathCodec (path decoder o encoder o decoder), SampleCodec (hit samples) and TimingEncode (encode_timing_points composed with the TimingLines decoder) model-checked by TLC; the real encoder's path tokens and [TimingPoints] lines compared with the models' predictions and the second decode with the predicted result; whole bundled/generated maps round-tripped on the statement's field list",
+    text="TLC checks that every decodable path token string, every bank-info x sound x sample-point combination and every chronological timing-line sequence in four modes survives decode -> encode -> decode (paths: outside five listed shapes the legacy text cannot carry); the real encoder must write exactly the predicted tokens/lines and the second decode must give the predicted result; bundled maps and maps from a structured generator (all sections, modes, versions, object kinds, multi-segment paths, same-time groups) are compared field by field per the statement, twice.",
+    note="Number formatting (shortest round-trip Display) is assumed from the Rust standard library. Known findings (recorded, not repaired): four control-point shapes and sub-EPSILON times, see known_findings.json. Section writers other than paths/samples/timing are bound by the whole-map comparison only.")
+CLAIMS["C04"] = dict(
+    category="model_checking", design_ref="DESIGN.md section 4, C04",
+    technique="TLA+ invariants PathCodec!Accepted and TimingEncode!EncAccepted (every encoded path / timing line is accepted by the decoder model) checked by TLC; the real encoder's output compared token by token with the models; the encoded text of bundled, generated, hostile and non-chronological maps validated line by line against the public section parsers (the encoded text is the trace)",
+    text="TLC shows on the models that the encoder never writes a slider path or timing line its decoder rejects; the real encoder's path text must equal the model's tokens for every decodable path string, and for every map of the corpus the encoded text must start with a version line, contain each header once in canonical order, have every record line accepted by its section's parse function, and re-decode to the same number of objects, timing points, breaks and colours.",
+    note="Trusted: TLC, harness/src/roundtrip.rs::c04_problems (line classification). Key/value section writers are bound by the line-by-line validation only (no TLA+ model of their text).")
+
 NOT_YET = "check not built yet in this round (planned, see DESIGN.md section 4)"
 NA = {
     "C17": "real-valued geometry (Hausdorff distance to Bezier/arc/Catmull curves): no discrete state or history for a TLA+ specification to decide; see DESIGN.md section 4, C17",
